@@ -107,6 +107,9 @@ type Gen struct{ g *gen }
 func (g *Gen) SelSet(root string, depth int) *SelSet { return g.g.selset(root, depth) }
 func (g *Gen) Render(ss *SelSet) string              { return g.g.Render(ss) }
 
+// SetOp makes Render write another operation keyword ("mutation").
+func (g *Gen) SetOp(op string) { g.g.op = op }
+
 func fieldNames(t string) []string {
 	var ns []string
 	for n := range schema[t] {
@@ -124,6 +127,7 @@ type gen struct {
 	defs  map[string]*SelSet // fragment definitions by name
 	defOn map[string]string
 	nDef  int
+	op    string // operation keyword ("" = query)
 }
 
 func (g *gen) dirsFor() []Dir {
@@ -198,9 +202,23 @@ func (g *gen) selset(t string, depth int) *SelSet {
 			}
 			ss.Sels = append(ss.Sels, s)
 		default:
-			if t != "Query" {
+			if t != "Query" && t != "MRoot" {
 				ss.Frags = append(ss.Frags, g.frag(t, depth))
 			}
+		}
+	}
+	if t == "MRoot" {
+		// the root of a mutation: its __typename is not the reference root's; at least one mutation field
+		kept := ss.Sels[:0]
+		for _, s := range ss.Sels {
+			if s.Name != "__typename" {
+				kept = append(kept, s)
+			}
+		}
+		ss.Sels = kept
+		if len(ss.Sels) == 0 {
+			ss.Sels = append(ss.Sels, &Sel{Name: "mNewUser", Alias: "mNewUser", RName: "newUser", Dirs: []Dir{}, HasSub: true,
+				Sub: &SelSet{Sels: []*Sel{{Name: "id", Alias: "id", Dirs: []Dir{}, Sub: emptySet()}}, Frags: []*Frag{}}})
 		}
 	}
 	if len(ss.Sels) == 0 && len(ss.Frags) == 0 {
@@ -305,7 +323,11 @@ func usedDefs(ss *SelSet, defs map[string]*SelSet, out map[string]bool) {
 // Render produces the query text (with fragment definitions) for the AST.
 func (g *gen) Render(root *SelSet) string {
 	var b strings.Builder
-	b.WriteString("query Q($t: Boolean!, $f: Boolean!, $dt: Boolean = true, $df: Boolean = false) ")
+	op := g.op
+	if op == "" {
+		op = "query"
+	}
+	b.WriteString(op + " Q($t: Boolean!, $f: Boolean!, $dt: Boolean = true, $df: Boolean = false) ")
 	renderSet(root, &b)
 	used := map[string]bool{}
 	usedDefs(root, g.defs, used)
